@@ -135,9 +135,13 @@ impl Prop for C16 {
       ("last", "  | [… l] => l\n  | * => 999u64.", |v: &Vec<u64>| if v.is_empty() { 999 } else { v[v.len() - 1] }),
       ("head-last", "  | [h … l] => h * 100u64 + l\n  | * => 999u64.", |v: &Vec<u64>| if v.len() >= 2 { v[0] * 100 + v[v.len() - 1] } else { 999 }),
       ("rest", "  | [a, b | rest] => a * 100u64 + b\n  | * => 999u64.", |v: &Vec<u64>| if v.len() >= 2 { v[0] * 100 + v[1] } else { 999 }),
+      ("suffix-two", "  | [… a, b] => a * 100u64 + b\n  | * => 999u64.", |v: &Vec<u64>| if v.len() >= 2 { v[v.len() - 2] * 100 + v[v.len() - 1] } else { 999 }),
+      ("prefix-two-suffix-two", "  | [p, q … a, b] => p * 1000u64 + q * 100u64 + a * 10u64 + b\n  | * => 999u64.", |v: &Vec<u64>| if v.len() >= 4 { v[0] * 1000 + v[1] * 100 + v[v.len() - 2] * 10 + v[v.len() - 1] } else { 999 }),
+      ("suffix-literals", "  | [… 5u64, 4u64] => 1u64\n  | [… 4u64, 5u64] => 2u64\n  | * => 999u64.", |v: &Vec<u64>| if v.len() >= 2 && v[v.len() - 2] == 5 && v[v.len() - 1] == 4 { 1 } else if v.len() >= 2 && v[v.len() - 2] == 4 && v[v.len() - 1] == 5 { 2 } else { 999 }),
+      ("prefix-literals", "  | [7u64, 8u64 …] => 1u64\n  | [8u64, 7u64 …] => 2u64\n  | * => 999u64.", |v: &Vec<u64>| if v.len() >= 2 && v[0] == 7 && v[1] == 8 { 1 } else if v.len() >= 2 && v[0] == 8 && v[1] == 7 { 2 } else { 999 }),
     ] {
       let mut calls = Vec::new();
-      for v in [vec![7u64, 8, 9], vec![4, 5], vec![1, 2, 3, 4, 5], vec![6, 6, 6, 6]] {
+      for v in [vec![7u64, 8, 9], vec![4, 5], vec![1, 2, 3, 4, 5], vec![6, 6, 6, 6], vec![8, 7, 5, 4], vec![5, 4, 3]] {
         let lit = format!("[{}]", v.iter().map(|x| format!("{}u64", x)).collect::<Vec<_>>().join(" "));
         calls.push(json!({"src": format!("r := {}?\n{}", lit, arms), "expect": f(&v), "args": v}));
       }
